@@ -20,7 +20,7 @@ META = {
         "module function, class, nested classes, static/class methods, submodule and sub-package "
         "members (modules purged from sys.modules in a third of the cases so that the import path "
         "runs); half of the cases make exactly one node fail (unknown module / unknown attribute on "
-        "an importable module or class / raising factory / a factory raising an exception that has a `where` attribute of its own / wrong arguments / non-callable / a __type__ that is null, empty, 0 or false) at a random "
+        "an importable module or class / raising factory / a factory raising an exception that has a `where` attribute of its own / factories raising AssertionError, KeyError, TypeError, AttributeError, ImportError, StopIteration, OSError, LookupError, RuntimeError, NotImplementedError / wrong arguments / non-callable / a __type__ that is null, empty, 0 or false) at a random "
         "position; half of the trees whose root is a __type__ mapping are translated with extra construct keywords "
         "(as the pipeline translator passes target=...), which only the root element may receive; half of those get a second failing element nested inside the first (the inner one must be reported); mapping keys "
         "that are not strings (ints, floats, booleans, null); a quarter of the valid trees hold one container object at two positions (what a YAML alias "
@@ -46,6 +46,8 @@ FAILURES = {
     "unknown_submodule": "vfact.deep.nosuch.make",
     "raises": "vfact.boom",
     "raises_with_where": "vfact.boom_where",
+    "raises_assertion": "vfact.boom_assert",
+    "raises_other": None,  # one of RAISERS, chosen per case
     "not_callable": "vfact.CONSTANT",
     "module_not_callable": "vfact.sub",
     "wrong_args": "vfact.strict",
@@ -54,6 +56,10 @@ FAILURES = {
     "type_is_zero": 0,
     "type_is_false": False,
 }
+
+
+RAISERS = ["vfact.boom_assert", "vfact.boom_key", "vfact.boom_type", "vfact.boom_attr", "vfact.boom_import", "vfact.boom_stop", "vfact.boom_os",
+           "vfact.boom_lookup", "vfact.boom_runtime", "vfact.boom_notimpl"]
 
 
 def plan(tier, seed):
@@ -148,6 +154,8 @@ def gen_case(rnd, spec):
         target, _ = rnd.choice(nodes)
         kind = rnd.choice(sorted(FAILURES))
         target["__type__"] = FAILURES[kind]
+        if kind == "raises_other":
+            target["__type__"] = rnd.choice(RAISERS)
         if kind == "wrong_args":
             for key in [k for k in target if k not in ("__type__", "nid")]:
                 del target[key]  # children would be legitimate arguments of vfact.strict
